@@ -19,7 +19,7 @@ type CustomOpts struct {
 	MaxFaults int
 }
 
-var hookKinds = []string{"extend", "extendExt", "extendErr", "extendCtx", "extendConv", "extendRegex", "method", "methodErr", "mapFunc", "mapFuncErr", "mapNoSource", "underlying", "underlyingMethod", "extendErrCtx", "extendSame", "extendExtCtxRegex"}
+var hookKinds = []string{"extend", "extendExt", "extendErr", "extendCtx", "extendConv", "extendRegex", "method", "methodErr", "mapFunc", "mapFuncErr", "mapNoSource", "underlying", "underlyingMethod", "extendErrCtx", "extendSame", "extendExtCtxRegex", "delegate", "delegateErr", "mapWhole", "mapWholePtr"}
 
 // CustomCase builds one case mixing automatic rules with custom functions.
 func CustomCase(r *rand.Rand, name string, o CustomOpts) *Case {
@@ -55,7 +55,7 @@ func CustomCase(r *rand.Rand, name string, o CustomOpts) *Case {
 	for i := 1; i <= npairs; i++ {
 		kind := hookKinds[r.Intn(len(hookKinds))]
 		if o.Fallible && i == 1 {
-			kind = []string{"extendErr", "methodErr", "mapFuncErr", "extendErrCtx"}[r.Intn(4)]
+			kind = []string{"extendErr", "methodErr", "mapFuncErr", "extendErrCtx", "delegateErr"}[r.Intn(5)]
 		}
 		if kind == "extendConv" && o.Format != "struct" {
 			kind = "extend"
@@ -129,6 +129,29 @@ func CustomCase(r *rand.Rand, name string, o CustomOpts) *Case {
 			key := "fn:" + fname
 			specFuncs = append(specFuncs, &vref.FuncSpec{Key: key, Kind: "extend", Roles: roles})
 			callables[key] = qual + fname
+		case "delegate", "delegateErr":
+			// a declared method AND an extend function for the same pair: the function wins everywhere and the
+			// method itself delegates to it
+			fname := fmt.Sprintf("Del%d", i)
+			mname := fmt.Sprintf("MD%d", i)
+			m := &Method{Name: mname, Params: []Param{{Name: "source", T: Named(ha), Role: "source"}}, Result: Named(hb)}
+			ms := &vref.MethodSpec{Name: mname, Roles: []string{"source"}, Fields: map[string]vref.FieldSpec{}}
+			if kind == "delegateErr" {
+				fmt.Fprintf(&funcsLocal, "func %s(a ty.HA%d) (ty.HB%d, error) {\n%s\treturn %s, nil\n}\n\n", fname, i, i, failStmt, hookBody(fname, ""))
+				m.HasErr, ms.HasErr = true, true
+				fallible = true
+			} else {
+				fmt.Fprintf(&funcsLocal, "func %s(a ty.HA%d) ty.HB%d {\n\treturn %s\n}\n\n", fname, i, i, hookBody(fname, ""))
+				if r.Intn(2) == 0 {
+					// the method may still declare an error result: it then returns nil
+					m.HasErr, ms.HasErr = true, true
+				}
+			}
+			m.Spec = ms
+			declared = append(declared, m)
+			convLines = append(convLines, "extend "+fname)
+			specFuncs = append(specFuncs, &vref.FuncSpec{Key: "fn:" + fname, Kind: "extend", Roles: []string{"source"}})
+			callables["fn:"+fname] = "conv." + fname
 		case "method", "methodErr":
 			mname := fmt.Sprintf("MH%d", i)
 			m := &Method{Name: mname, Params: []Param{{Name: "source", T: Named(ha), Role: "source"}}, Result: Named(hb)}
@@ -166,6 +189,31 @@ func CustomCase(r *rand.Rand, name string, o CustomOpts) *Case {
 			fields[tf] = vref.FieldSpec{Path: []string{sf}, Func: "fn:" + fn}
 			specFuncs = append(specFuncs, &vref.FuncSpec{Key: "fn:" + fn, Kind: "map", Roles: []string{"source"}})
 			callables["fn:"+fn] = "conv." + fn
+		case "mapWhole":
+			// map . FIELD | FUNC: the function receives the whole source value
+			fn := fmt.Sprintf("Whole%d", i)
+			tf := fmt.Sprintf("W%dOut", i)
+			tS.Fields = append(tS.Fields, F(tf, Basic("string")))
+			fmt.Fprintf(&funcsLocal, "func %s(s ty.S) string { return fmt.Sprintf(\"%s:%%d\", s.Plain) }\n\n", fn, fn)
+			methLines = append(methLines, fmt.Sprintf("map . %s | %s", tf, fn))
+			fields[tf] = vref.FieldSpec{Path: []string{"."}, Func: "fn:" + fn}
+			specFuncs = append(specFuncs, &vref.FuncSpec{Key: "fn:" + fn, Kind: "map", Roles: []string{"source"}})
+			callables["fn:"+fn] = "conv." + fn
+		case "mapWholePtr":
+			// a method from *PS to *PT whose function takes the source POINTER: it receives the original pointer
+			fn := fmt.Sprintf("WholeP%d", i)
+			ps := decl(fmt.Sprintf("PS%d", i), Struct(F("A", Basic("int")), F("B", Basic("string"))))
+			pt := decl(fmt.Sprintf("PT%d", i), Struct(F("A", Basic("int")), F("B", Basic("string")), F("Full", Basic("string"))))
+			fmt.Fprintf(&funcsLocal, "func %s(s *ty.PS%d) string { return fmt.Sprintf(\"%s:%%d:%%s\", s.A, s.B) }\n\n", fn, i, fn)
+			mname := fmt.Sprintf("MPW%d", i)
+			dm := &Method{Name: mname, Params: []Param{{Name: "source", T: Ptr(Named(ps)), Role: "source"}}, Result: Ptr(Named(pt)), Lines: []string{fmt.Sprintf("map . Full | %s", fn)},
+				Spec: &vref.MethodSpec{Name: mname, Roles: []string{"source"}, Fields: map[string]vref.FieldSpec{"Full": {Path: []string{"."}, Func: "fn:" + fn}}}}
+			declared = append(declared, dm)
+			specFuncs = append(specFuncs, &vref.FuncSpec{Key: "fn:" + fn, Kind: "map", Roles: []string{"source"}})
+			callables["fn:"+fn] = "conv." + fn
+			f := fmt.Sprintf("PW%d", i)
+			sS.Fields = append(sS.Fields, F(f, Ptr(Named(ps))))
+			tS.Fields = append(tS.Fields, F(f, Ptr(Named(pt))))
 		case "mapNoSource":
 			fn := fmt.Sprintf("Make%d", i)
 			tf := fmt.Sprintf("G%dOut", i)
